@@ -1,8 +1,9 @@
 #!/bin/sh
-# usage: tools/seed_matrix.sh [ids...]   - runs each seeded change against its property's check (scratch copy), 4 at a time
+# usage: tools/seed_matrix.sh [seed dirs...]   - runs each seeded change (seeded/<Cxx>[b..]) against its property's check
+# on a scratch copy, 4 at a time
 cd "$(dirname "$0")/.." || exit 3
 IDS="$*"; [ -z "$IDS" ] && IDS=$(ls seeded)
 for id in $IDS; do
   echo $id
-done | xargs -P 4 -I{} sh -c 'timeout 3000 tools/try_patch.sh /verif/seeded/{}/patch.diff {} 2>&1 | grep -v conda | grep "violated obligation\|VIOLATION\|^\[C\|exit=\|bounded violation\|UNDECIDED\|CHECKER" | cut -c1-300 > seeded/{}/caught.txt'
+done | xargs -P 4 -I{} sh -c 'p=$(echo {} | cut -c1-3); timeout 3000 tools/try_patch.sh /verif/seeded/{}/patch.diff $p 2>&1 | grep -v conda | grep "violated obligation\|VIOLATION\|^\[C\|exit=\|bounded violation\|UNDECIDED\|CHECKER" | cut -c1-300 > seeded/{}/caught.txt'
 for id in $IDS; do echo "== $id: $(grep -c VIOLATION seeded/$id/caught.txt) VIOLATION lines, $(grep exit= seeded/$id/caught.txt)"; done
